@@ -91,6 +91,9 @@ def finish(pid, tier, results, t0, trusted_base, explanation, extra_assumptions=
     seed = int(os.environ.get("VERIF_SEED", "0") or 0)
     evdir = os.environ.get("VERIF_EVIDENCE_DIR") or os.path.join(VERIF, "evidence")
     os.makedirs(os.path.join(evdir, "findings"), exist_ok=True)
+    for fn in os.listdir(os.path.join(evdir, "findings")):
+        if fn.startswith(pid + "_"):
+            os.remove(os.path.join(evdir, "findings", fn))
     violations = []
     known_hit = []
     errors = []
